@@ -97,7 +97,10 @@ def build(cube, fixed=None, engine=None):
         if op in 'AR':
             if op == 'A':
                 slot = len(c.slots)
-                o = sym_order(L, inp, 'o%d' % slot, variants=types[slot], oid=const_order_id(slot + 1), price=h.P)
+                oprice = h.P
+                for j, off in enumerate(cube.get('order_price_offsets') or []):
+                    oprice = S.Ite(inp.var('o%d.price_off%d' % (slot, j), S.B), S.Add(h.P, S.bv(off, 64)), oprice)
+                o = sym_order(L, inp, 'o%d' % slot, variants=types[slot], oid=const_order_id(slot + 1), price=oprice)
                 c.slots.append(o)
             else:
                 slot = 0
